@@ -221,26 +221,35 @@ def assignQuals (q : List String) : Model.Assign.Quals :=
     increase := q.contains "increase", decrease := q.contains "decrease", notnone := q.contains "notnone",
     asbool := q.contains "asbool", nocontrib := q.contains "nocontrib" }
 
-/-- number or string comparison of `above`/`below` & friends (as built: same-type numbers compare
-    as numbers, everything else as stripped strings; the `lt` family answers `<=`) -/
+/-- number or string comparison of `above`/`below` & friends: numbers first — when `float()`
+    succeeds on both (bools excluded) they compare as numbers, otherwise as stripped strings; as
+    built, the `lt` family answers `<=` -/
 def aboveBelow (name : String) (a b : Value) (s : ES) : Bool × ES :=
   let above := name == "gt" || name == "above" || name == "after" || name == "gte"
   let orEq := name == "gte" || !above      -- lt, below, before, lte all end in `<=`
   let cmp := fun (lt eq : Bool) => if above then (if orEq then !lt else (!lt && !eq)) else (lt || eq)
-  match a, b with
-  | .none, .none =>
-    -- both None: falls through to the string branch on "None" vs "None"
-    (cmp false true, s)
-  | .none, _ => (false, s)
-  | _, .none => (false, s)
-  | .int x, .int y => (cmp (decide (x < y)) (x == y), s)
-  | .flt x, .flt y => (cmp (decide (x < y)) (x == y), s)
-  | _, _ =>
-    let (sa, s1) := fmt s a
+  let isBool := fun (x : Value) => match x with | .bool _ => true | _ => false
+  let strings := fun (s0 : ES) =>
+    let (sa, s1) := fmt s0 a
     let (sb, s2) := fmt s1 b
     let ta := Model.PyStr.strip sa
     let tb := Model.PyStr.strip sb
     (cmp (decide (ta < tb)) (ta == tb), s2)
+  match a, b with
+  | .none, .none => (cmp false true, s)       -- "None" against "None" as strings
+  | .none, _ => (false, s)
+  | _, .none => (false, s)
+  | _, _ =>
+    if isBool a || isBool b then strings s
+    else
+      match floatable a, floatable b with
+      | some true, some true =>
+        (match pyFloat a, pyFloat b with
+         | .ok x, .ok y => (cmp (decide (x < y)) (x == y), s)
+         | _, _ => (false, unmodelled s "comparison of non-integral numbers"))
+      | some false, _ => strings s
+      | _, some false => strings s
+      | _, _ => (false, unmodelled s "comparison: cannot tell whether float() succeeds")
 
 def betweenCmp {α : Type} (name : String) (ltF : α → α → Bool) (_eqF : α → α → Bool) (me a b : α) : Bool :=
   let gt := fun x y => ltF y x
@@ -389,6 +398,17 @@ def evalWhen : Nat → Env → Node → Node → ES → Option Bool × ES
     else
       if !env.dm && nodeNocontrib l then (some false, s1) else (some (nodeNocontrib l), s1)
 
+/-- Python stores a *reference* when a list or dict is assigned to a second variable or pushed on a
+stack, so later updates of the original show through.  The model has value semantics; it refuses
+(`unmodelled`) instead of guessing. -/
+def isContainer : Value → Bool
+  | .list _ => true
+  | .dict _ => true
+  | _ => false
+
+def setVariableA (s : ES) (n : String) (tracking0 : Option Value) (x : Value) : ES :=
+  if isContainer x then unmodelled s "aliasing of a mutable value" else setVariable s n tracking0 x
+
 /-- `@name.quals = right` -/
 def evalAssign : Nat → Env → String → List String → Node → ES → Option Bool × ES
   | 0, _, _, _, _, s => (none, unmodelled s "fuel")
@@ -403,7 +423,7 @@ def evalAssign : Nat → Env → String → List String → Node → ES → Opti
       let (cur, s2) := getVariable s1 name tracking none
       let aq := assignQuals q
       if !(aq.latch || aq.onchange || aq.increase || aq.decrease || aq.notnone || aq.asbool || aq.nocontrib) then
-        (some env.dm, setVariable s2 name tracking y)
+        (some env.dm, setVariableA s2 name tracking y)
       else
         match toAssignVal cur, toAssignVal y with
         | some c, some yy =>
@@ -411,7 +431,7 @@ def evalAssign : Nat → Env → String → List String → Node → ES → Opti
           | .typeError => (none, unmodelled s2 "TypeError comparing int with str in an assignment")
           | .ok w vote =>
             let s3 := match w with
-              | some _ => setVariable s2 name tracking y
+              | some _ => setVariableA s2 name tracking y
               | none => s2
             (some vote, s3)
         | _, _ => (none, unmodelled s2 "qualified assignment of a list or dict")
@@ -547,7 +567,8 @@ def decideFn : Nat → Env → Nat → String → List String → List Node → 
             let (stack, s3) := getVariable s2 key none (some (.list []))
             match stack with
             | .list xs =>
-              if (q.contains "distinct" || name == "push_distinct") && xs.any (fun y => pyEq y x) then (dflt, s3)
+              if isContainer x then (none, unmodelled s3 "aliasing of a mutable value")
+              else if (q.contains "distinct" || name == "push_distinct") && xs.any (fun y => pyEq y x) then (dflt, s3)
               else if q.contains "notnone" && isEmptyV x then (dflt, s3)
               else (dflt, emit s3 (.vars (setVarPlain s3.v.vars key (.list (xs ++ [x])))))
             | _ => (none, unmodelled s3 "push onto a non-list variable")
@@ -838,14 +859,14 @@ def produceFn : Nat → Env → Nat → String → List String → List Node →
         let (k, s1) := evalV fuel env a s
         let (x, s2) := evalV fuel env b s1
         (match k with
-         | .str key => (.none, setVariable s2 key none x)
+         | .str key => (.none, setVariableA s2 key none x)
          | _ => (.none, unmodelled s2 "put: non-string name"))
       | [a, b, c] =>
         let (k, s1) := evalV fuel env a s
         let (t, s2) := evalV fuel env b s1
         let (x, s3) := evalV fuel env c s2
         (match k with
-         | .str key => (.none, setVariable s3 key (some t) x)
+         | .str key => (.none, setVariableA s3 key (some t) x)
          | _ => (.none, unmodelled s3 "put: non-string name"))
       | _ => (.none, unmodelled s "put: arity")
     else (.none, unmodelled s ("function not in the model: " ++ name))
